@@ -171,6 +171,8 @@ def _parseInventoryLine(line: str) -> Tuple[str, str, int, str, str]:
 
     name = ' '.join(parts[: prio_idx - 1])
     typ = parts[prio_idx - 1]
+    if prio_idx + 1 >= len(parts):
+        raise ValueError("Location column is missing")
     location = parts[prio_idx + 1]
     display = ' '.join(parts[prio_idx + 2 :])
     if not display:
